@@ -46,6 +46,13 @@ def make_cases(rng, tier):
             a = tv_int(ka, za)
             b = tv_int(kb, zb) if zb is not None else tv_float("f64", 9007199254740992.0)
             cases.append(ret_case(cid, flat_to_tree([var("a"), var("b")], [op]), [inj_val("a", a), inj_val("b", b)])); cid += 1
+    # tiny, denormal and huge float divisors / operands: only an exact zero divisor may fail
+    for za, fb in itertools.product([5, -3, 0], [2.5e-10, -1e-12, 5e-324, 1e-300, 1e308, 4.9e-324]):
+        for op in ["/", "*", "<", "=="]:
+            cases.append(ret_case(cid, flat_to_tree([var("a"), var("b")], [op]), [inj_val("a", tv_int("i64", za)), inj_val("b", tv_float("f64", fb))])); cid += 1
+    for lit in ["0.0000000005", "1e-10", "1e-300"]:
+        cases.append(ret_case(cid, emath(mk_mbin("/", matom(const(kint(1))), matom(const(kreal(lit))))), [])); cid += 1
+        cases.append(ret_case(cid, emath(mk_mbin("/", matom(const(kreal("3.0"))), mk_mbin("*", matom(const(kreal(lit))), matom(const(kreal(lit)))))), [])); cid += 1
     for bf in ["+0", "-0"]:
         cases.append(ret_case(cid, flat_to_tree([var("a"), var("b")], ["/"]), [inj_val("a", tv_int("i64", 5)), inj_val("b", {"t": "f64", "c": bf})])); cid += 1
     # (d) metadata constants
@@ -83,11 +90,46 @@ RULE = ("systematic: all 144 ordered pairs and 150 (thorough: all 1728) triples 
         "distinct non-trivial = distinct (tree shape with operators, operand kind vector) with at least two binary operators")
 
 
+def reading(run):
+    """the grammar's reading (Lang/Parse.v, theorems parse_sound / parse_complete) against the real parser"""
+    import readgen
+    n_valid, n_bad = (500, 250) if run.tier == "quick" else (6000, 3000)
+    cases, ob, bad = readgen.reading_check(run, PID, n_valid, n_bad)
+    byid = {c["id"]: c for c in cases}
+    for i, why in bad[:4]:
+        c = byid[i]
+        run.report({"kind": "reading", "tokens": " ".join(readgen.tok_text(t) for t in c["toks"])},
+                   {"reading_case": {"text": c["text"], "ctx": c["ctx"], "toks": c["toks"]}, "observation": ob[i], "disagreement": why},
+                   "%s: expression `%s` — %s" % (PID, " ".join(readgen.tok_text(t) for t in c["toks"]), why))
+    kinds = {}
+    for c in cases:
+        k = c["kind"] + ("/rejected" if ob[c["id"]].get("compile") else "/accepted")
+        kinds[k] = kinds.get(k, 0) + 1
+    return not bad, {"reading_correspondence": {"token_strings": len(cases), "by_kind": kinds, "disagreements": len(bad),
+                                                "rule": "all 144 operator pairs bare / right-parenthesised / left-parenthesised / negated, sampled triples, random nested "
+                                                        "strings with ~4% sort errors, token-level mutations (drop, duplicate, swap, insert) and noise; three contexts (return, if, assignment); "
+                                                        "the Coq reader must return exactly the shape the listener built, or None when the compile call reports an error"}}
+
+
 def main(run):
-    return lang_check(run, PID, make_cases, RULE,
-                      ["&& and || evaluate both operands (the property does not promise short-circuit)"], nontrivial,
+    return lang_check(run, PID, make_cases, RULE, extra=("reading_C01: Lang/Parse.v parse = shape of the listener's tree (or both reject) on every generated token string", reading),
+                      assumptions=
+                      ["&& and || evaluate both operands (the property does not promise short-circuit)",
+                                   "reading model domain: token strings over atoms a0..a9, the 12 binary operators, parentheses and '!', with no atom directly followed by '(' (a call in the real lexer)"], nontrivial=nontrivial,
                       classify=lambda c, o, code: {"construct": "int-compare"} if code == 2 and "<" in c["text"] + ">" + "=" and False else None)
 
 
 def replay(run, data):
+    rp = data["replay"]
+    if "reading_case" in rp:
+        build_harness()
+        c = rp["reading_case"]
+        print("rule text:\n" + c["text"])
+        o = run_harness("parse", [{"id": 0, "text": c["text"], "ctx": c["ctx"]}])[0]
+        print("implementation now:", json.dumps(o))
+        print("recorded          :", json.dumps(rp["observation"]))
+        print("disagreement recorded:", rp["disagreement"])
+        same = (o.get("shape"), bool(o.get("compile"))) == (rp["observation"].get("shape"), bool(rp["observation"].get("compile")))
+        print("replay: implementation behaves as recorded:", same)
+        return 1 if same else 0
     return replay_lang(run, data)
